@@ -118,7 +118,7 @@ def collect_calls(P, tu, fn, env, depth=0, seen=None, out=None):
             e = ev['e']
             name = e.get('fn')
             rec = {'name': name, 'macro': ev.get('macro'), 'args': e.get('a', []), 'loc': ev.get('sloc') or ev['loc'], 'in': fn,
-                   'callee': e.get('callee'), 'bid': b, 'idx': ei}
+                   'callee': e.get('callee'), 'bid': b, 'idx': ei, 'env': env}
             out.append(rec)
             if name and P.has(tu, name):
                 g = P.func(tu, name)
